@@ -27,7 +27,7 @@ def sections_of(sc, node=None, path=(), out=None):
 def entry_name(rng, sc, o):
     cands = []
     if o.get("ininame"): cands += [o["ininame"], o["ininame"].upper(), o["ininame"].lower()]
-    cands += [o["field"], o["field"]]
+    if o["field"]: cands += [o["field"], o["field"]]
     if o["long"]:
         d = sc["cfg"]["nsdelim"]
         cands.append(d.join([n for n in o.get("ns", ()) if n] + [o["long"]]))
